@@ -23,8 +23,8 @@ func (fc *fnCtx) set(x ssa.Value, v *val) {
 
 // oblige emits a safety obligation for the current instruction.
 func (fc *fnCtx) oblige(kind, what, cond string, pos token.Pos, show ...showTerm) {
-	if fc.noObl() {
-		return
+	if fc.noObl() || fc.g.lite {
+		return // typestate level: values are havoc, safety obligations are meaningless there
 	}
 	fc.g.oblige(obligation{name: fmt.Sprintf("safe:%s:%s:%s", fc.oblFn(), kind, what), kind: "safe", guard: fc.curR, cond: cond, show: show, pos: fc.g.w.posString(pos)})
 }
@@ -43,6 +43,9 @@ func (fc *fnCtx) instr(in ssa.Instruction) {
 	switch x := in.(type) {
 	case *ssa.DebugRef:
 		if id, ok := x.Expr.(*ast.Ident); ok {
+			if fc.allocVars()[id.Name] {
+				return // address-taken variable: its name always denotes the current content of its cell (bound at the Alloc)
+			}
 			if v, ok := fc.vals[x.X]; ok {
 				lb := localBind{b: fc.curB, v: v, isAddr: x.IsAddr}
 				if x.IsAddr {
@@ -110,7 +113,15 @@ func (fc *fnCtx) instr(in ssa.Instruction) {
 		}
 	case *ssa.Alloc:
 		ref := fc.alloc(x.Comment)
-		fc.set(x, &val{k: kPtr, t: []string{ref, z64}})
+		pv := &val{k: kPtr, t: []string{ref, z64}}
+		fc.set(x, pv)
+		fc.classAssume(pv, x.Type(), "")
+		if !x.Heap {
+			fc.stackRefs = append(fc.stackRefs, ref) // never escapes: no callee can write it
+		}
+		if fc.allocVars()[x.Comment] {
+			fc.locals[x.Comment] = append(fc.locals[x.Comment], localBind{b: fc.curB, v: pv, isAddr: true, ty: x.Type().Underlying().(*types.Pointer).Elem()})
+		}
 	case *ssa.MakeSlice:
 		n := fc.v(x.Len)
 		c := fc.v(x.Cap)
@@ -118,7 +129,9 @@ func (fc *fnCtx) instr(in ssa.Instruction) {
 		// checked against 2*MAXLEN so that the global length assumption itself never fails an obligation
 		fc.oblige("makeslice", fc.srcOr(x.Pos(), "call", x.Name()), fmt.Sprintf("(and (bvsle %s %s) (bvsle %s %s) (bvsle %s (bvshl MAXLEN #x0000000000000001)))", z64, ln, ln, cp, cp), x.Pos(), showTerm{"len", ln})
 		ref := fc.alloc("mk")
-		fc.set(x, &val{k: kSlice, constLen: constOf(ln), t: []string{ref, z64, ln, cp}})
+		sv := &val{k: kSlice, constLen: constOf(ln), t: []string{ref, z64, ln, cp}}
+		fc.classAssume(sv, x.Type(), "")
+		fc.set(x, sv)
 	case *ssa.MakeMap, *ssa.MakeChan:
 		ref := fc.alloc("mk")
 		fc.set(x.(ssa.Value), &val{k: kOpaque, t: []string{ref}})
@@ -272,7 +285,7 @@ func (fc *fnCtx) instr(in ssa.Instruction) {
 			zero := g.zeroVal(x.AssertedType)
 			fc.set(x, &val{k: kTuple, elems: []*val{fc.ite(okc, res, zero), {k: kBool, t: []string{okc}}}})
 		} else {
-			fc.oblige("typeassert", fc.srcOr(x.Pos(), "sel", x.X.Name()), okc, x.Pos())
+			fc.oblige("typeassert", fc.srcOr(x.Pos(), "typeassert", "assert-to-"+x.AssertedType.String()), okc, x.Pos())
 			fc.set(x, res)
 		}
 	case *ssa.If, *ssa.Jump:
@@ -281,7 +294,7 @@ func (fc *fnCtx) instr(in ssa.Instruction) {
 		for _, r := range x.Results {
 			vs = append(vs, fc.v(r))
 		}
-		fc.rets = append(fc.rets, retSite{fc.curR, vs, fc.curH.clone(), fc.curAC})
+		fc.rets = append(fc.rets, retSite{fc.g.w.srcAt(x.Pos(), "return"), fc.curR, vs, fc.curH.clone(), fc.curAC})
 	case *ssa.Panic:
 		c := g.w.contractOf(fc.fn)
 		if c != nil && c.panicsWhen != "" && fc.parent == nil {
@@ -593,10 +606,10 @@ func (fc *fnCtx) unop(x *ssa.UnOp) *val {
 		}
 		fc.checkGuarded(x.X, false, x.Pos())
 		v := fc.load(x.Type(), a.t[0], a.t[1])
-		if gl, ok := x.X.(*ssa.Global); ok && types.IsInterface(gl.Type().(*types.Pointer).Elem()) && strings.HasPrefix(gl.Name(), "Err") {
+		if gl, ok := x.X.(*ssa.Global); ok && isErrorType(gl.Type().(*types.Pointer).Elem()) {
 			// sentinel error variables are initialised non-nil and never reassigned (assumption, listed in evidence)
 			fc.g.assume(fmt.Sprintf("(not (= %s 0))", v.t[0]))
-			fc.g.trusted["sentinel Err* variables are non-nil and never reassigned"] = true
+			fc.g.trusted["package-level variables of type error (sentinels) are non-nil and never reassigned"] = true
 		}
 		return fc.named(x.Name(), v)
 	case token.NOT:
@@ -761,6 +774,9 @@ func (fc *fnCtx) loadH(h heap, t types.Type, ref, off string, guard string) *val
 		return &val{k: kFloat, w: w, ty: t, t: []string{x}}
 	}
 	gimp := func(f string) {
+		if guard == "#skip" {
+			return
+		}
 		if guard != "" && guard != "true" {
 			g.assume(fmt.Sprintf("(=> %s %s)", guard, f))
 		} else {
@@ -775,16 +791,20 @@ func (fc *fnCtx) loadH(h heap, t types.Type, ref, off string, guard string) *val
 		if u.Info()&types.IsString != 0 {
 			v := &val{k: kSlice, constLen: -1, ty: t, t: []string{sel(h["HSr"], ref, off), sel(h["HSo"], ref, off), sel(h["HSl"], ref, off), sel(h["HSl"], ref, off)}}
 			gimp(sliceWF(v))
+			fc.classAssume(v, t, guard)
 			return v
 		}
 		if u.Kind() == types.UnsafePointer {
 			return &val{k: kPtr, ty: t, t: []string{sel(h["HPr"], ref, off), sel(h["HPo"], ref, off)}}
 		}
 	case *types.Pointer:
-		return &val{k: kPtr, ty: t, t: []string{sel(h["HPr"], ref, off), sel(h["HPo"], ref, off)}}
+		pv := &val{k: kPtr, ty: t, t: []string{sel(h["HPr"], ref, off), sel(h["HPo"], ref, off)}}
+		fc.classAssume(pv, t, guard)
+		return pv
 	case *types.Slice:
 		v := &val{k: kSlice, constLen: -1, ty: t, t: []string{sel(h["HSr"], ref, off), sel(h["HSo"], ref, off), sel(h["HSl"], ref, off), sel(h["HSc"], ref, off)}}
 		gimp(sliceWF(v))
+		fc.classAssume(v, t, guard)
 		return v
 	case *types.Interface:
 		return &val{k: kIface, ty: t, t: []string{sel(h["HIt"], ref, off), sel(h["HIr"], ref, off), sel(h["HIo"], ref, off)}}
@@ -922,6 +942,11 @@ func (fc *fnCtx) havocHeap(tag, keep string, keepGhost bool) {
 	}
 	fresh := g.freshHeap(tag)
 	k := fmt.Sprintf("(< r (- %d))", strRefBase)
+	for c := fc; c != nil; c = c.parent {
+		for _, sr := range c.stackRefs {
+			k = fmt.Sprintf("(or %s (= r %s))", k, sr)
+		}
+	}
 	if keep != "" {
 		k = fmt.Sprintf("(or %s %s)", k, keep)
 	}
@@ -952,4 +977,33 @@ func derivedAddr(a ssa.Value) bool {
 		return true
 	}
 	return false
+}
+
+// allocVars: names of source variables of this function that live in memory (address-taken or captured).
+func (fc *fnCtx) allocVars() map[string]bool {
+	if fc.allocNames != nil {
+		return fc.allocNames
+	}
+	fc.allocNames = map[string]bool{}
+	named := map[string]bool{}
+	for _, b := range fc.fn.Blocks {
+		for _, in := range b.Instrs {
+			if d, ok := in.(*ssa.DebugRef); ok && d.IsAddr {
+				if id, ok := d.Expr.(*ast.Ident); ok {
+					if a, ok := d.X.(*ssa.Alloc); ok && a.Comment == id.Name {
+						named[id.Name] = true
+					}
+				}
+			}
+		}
+	}
+	for n := range named {
+		fc.allocNames[n] = true
+	}
+	return fc.allocNames
+}
+
+func isErrorType(t types.Type) bool {
+	n, ok := t.(*types.Named)
+	return ok && n.Obj().Pkg() == nil && n.Obj().Name() == "error"
 }
